@@ -6,61 +6,78 @@ from ..expr import Op, Expr, BoolVar, IntVar
 z3 = None
 
 
+def _convert_operator(op, operands):
+    if op == Op.BOOL_CONSTANT or op == Op.INT_CONSTANT:
+        return operands[0]
+    elif op == Op.NEG:
+        return -operands[0]
+    elif op == Op.ADD:
+        ret = operands[0]
+        for i in range(1, len(operands)):
+            ret = ret + operands[i]
+        return ret
+    elif op == Op.SUB:
+        ret = operands[0]
+        for i in range(1, len(operands)):
+            ret = ret - operands[i]
+        return ret
+    elif op == Op.EQ:
+        return operands[0] == operands[1]
+    elif op == Op.NE:
+        return operands[0] != operands[1]
+    elif op == Op.LE:
+        return operands[0] <= operands[1]
+    elif op == Op.LT:
+        return operands[0] < operands[1]
+    elif op == Op.GE:
+        return operands[0] >= operands[1]
+    elif op == Op.GT:
+        return operands[0] > operands[1]
+    elif op == Op.NOT:
+        return z3.Not(operands[0])
+    elif op == Op.AND:
+        return z3.And(operands)
+    elif op == Op.OR:
+        return z3.Or(operands)
+    elif op == Op.XOR:
+        return z3.Xor(operands[0], operands[1])
+    elif op == Op.IFF:
+        return operands[0] == operands[1]
+    elif op == Op.IMP:
+        return z3.Or(z3.Not(operands[0]), operands[1])
+    elif op == Op.IF:
+        return z3.If(operands[0], operands[1], operands[2])
+    elif op == Op.ALLDIFF:
+        if len(operands) == 0:
+            return z3.BoolVal(True)
+        return z3.Distinct(operands)
+
+
 def _convert_expr(e, variables_dict):
-    if isinstance(e, bool):
-        return z3.BoolVal(e)
-    if isinstance(e, int):
-        return z3.IntVal(e)
-    if not isinstance(e, Expr):
-        raise TypeError()
-    if isinstance(e, (BoolVar, IntVar)):
-        return variables_dict[e.id]
-    else:
-        operands = list(map(lambda x: _convert_expr(x, variables_dict), e.operands))
-        if e.op == Op.BOOL_CONSTANT or e.op == Op.INT_CONSTANT:
-            return operands[0]
-        elif e.op == Op.NEG:
-            return -operands[0]
-        elif e.op == Op.ADD:
-            ret = operands[0]
-            for i in range(1, len(operands)):
-                ret = ret + operands[i]
-            return ret
-        elif e.op == Op.SUB:
-            ret = operands[0]
-            for i in range(1, len(operands)):
-                ret = ret - operands[i]
-            return ret
-        elif e.op == Op.EQ:
-            return operands[0] == operands[1]
-        elif e.op == Op.NE:
-            return operands[0] != operands[1]
-        elif e.op == Op.LE:
-            return operands[0] <= operands[1]
-        elif e.op == Op.LT:
-            return operands[0] < operands[1]
-        elif e.op == Op.GE:
-            return operands[0] >= operands[1]
-        elif e.op == Op.GT:
-            return operands[0] > operands[1]
-        elif e.op == Op.NOT:
-            return z3.Not(operands[0])
-        elif e.op == Op.AND:
-            return z3.And(operands)
-        elif e.op == Op.OR:
-            return z3.Or(operands)
-        elif e.op == Op.XOR:
-            return z3.Xor(operands[0], operands[1])
-        elif e.op == Op.IFF:
-            return operands[0] == operands[1]
-        elif e.op == Op.IMP:
-            return z3.Or(z3.Not(operands[0]), operands[1])
-        elif e.op == Op.IF:
-            return z3.If(operands[0], operands[1], operands[2])
-        elif e.op == Op.ALLDIFF:
-            if len(operands) == 0:
-                return z3.BoolVal(True)
-            return z3.Distinct(operands)
+    # Iterative post-order traversal: an expression such as sum(cells) over a large
+    # board is a chain nested deeper than the interpreter's recursion limit.
+    stack = [(e, False)]
+    results = []
+    while stack:
+        node, expanded = stack.pop()
+        if isinstance(node, bool):
+            results.append(z3.BoolVal(node))
+        elif isinstance(node, int):
+            results.append(z3.IntVal(node))
+        elif not isinstance(node, Expr):
+            raise TypeError()
+        elif isinstance(node, (BoolVar, IntVar)):
+            results.append(variables_dict[node.id])
+        elif not expanded:
+            stack.append((node, True))
+            for operand in reversed(node.operands):
+                stack.append((operand, False))
+        else:
+            n = len(node.operands)
+            operands = results[len(results) - n :]
+            del results[len(results) - n :]
+            results.append(_convert_operator(node.op, operands))
+    return results[0]
 
 
 class Z3Backend(Backend):
